@@ -1,5 +1,6 @@
 """Correspondence engine for the CFG properties (C08, C09, C10, C12).
 Case: {"op": ..., "g": spec, ["g2": spec], ["maxlen": k], ...}"""
+import common
 import cfglib
 from cfglib import CfgInterner, coq_cfg, coq_symbols
 from common import cq, chunks
@@ -193,6 +194,9 @@ def check_cases(ctx, module, cases, ext=None):
         if i % 41 == 0:
             ctx.sample({"op": c["op"], "g": c["g"]})
         if not has[i] and "exc" not in obs[i] and "timeout" not in obs[i]:
+            continue
+        if mvs[i] == common.MODEL_TIMEOUT:
+            ctx.dist["model / oracle evaluation exceeded its time budget (case skipped, not judged)"] += 1
             continue
         if c["op"] in _KNOWN_OPS:
             judge_case(ctx, c, obs[i], mvs[i])
